@@ -51,12 +51,13 @@ type Mut struct {
 
 // MutVector is an "M" line.
 type MutVector struct {
-	T       *TypeTree `json:"t"`
-	Sig     []int     `json:"sig"`
-	Enc     []int     `json:"enc"`
-	Vprefix []int     `json:"vprefix"`
-	Muts    []Mut     `json:"muts"`
-	Vmuts   []Mut     `json:"vmuts"`
+	T       *TypeTree  `json:"t"`
+	Sig     []int      `json:"sig"`
+	Enc     []int      `json:"enc"`
+	Vprefix []int      `json:"vprefix"`
+	Muts    []Mut      `json:"muts"`
+	Vmuts   []Mut      `json:"vmuts"`
+	Flds    []fieldRec `json:"flds"` // Wire!Fields of the canonical encoding (scaled.go)
 }
 
 // FrameVector is an "F" line.
